@@ -967,7 +967,7 @@ open PB.Gen.Log (traceLevel)
 theorem fastcheck_iff (c : Levels) (lvl : Nat) :
     fastcheck c lvl = true ↔ (c.active = true ∨ c.glob ≤ lvl) := by
   unfold fastcheck PB.Gen.Log.fastcheck
-  cases c.active <;> simp
+  cases c.active <;> (try simp) <;> (try omega)
 
 theorem enabled_mono {c : Levels} {pkg : Option Nat} {a b : Nat} (h : enabled c pkg a = true) (hab : a ≤ b) :
     enabled c pkg b = true := by
@@ -986,23 +986,32 @@ theorem isSeverity_ge {lvl : Nat} (h : isSeverity lvl = true) : traceLevel ≤ l
   unfold traceLevel
   omega
 
+/-- (The proofs about the regenerated `addTracer` are scripted so that they go through for every source shape
+    that takes the same decisions — e.g. another argument of the leading `fastcheck`, a dropped dead branch —:
+    unfold, split on the Boolean inputs, `simp`, linear arithmetic over the severity constants.) -/
 theorem addTracer_iff (c : Levels) (pkg : Option Nat) :
     addTracer c false true pkg false = true ↔ enabled c pkg traceLevel = true := by
+  have h1 : PB.Gen.Log.traceLevel = 1 := rfl
+  have h2 : PB.Gen.Log.debugLevel = 2 := rfl
+  have h3 : PB.Gen.Log.infoLevel = 3 := rfl
+  have h4 : PB.Gen.Log.warningLevel = 4 := rfl
+  have h5 : PB.Gen.Log.errorLevel = 5 := rfl
+  have h6 : PB.Gen.Log.criticalLevel = 6 := rfl
   unfold addTracer PB.Gen.Log.addTracer PB.Gen.Log.fastcheck enabled
   cases pkg with
-  | none => cases c.active <;> simp
+  | none => cases c.active <;> (try simp) <;> (try omega)
   | some p =>
-    cases c.active <;> simp
-    cases lookupPkg c.pkgs p <;> simp
+    cases c.active <;> (try simp) <;> (try cases lookupPkg c.pkgs p) <;> (try simp) <;> (try omega)
 
 theorem addTracer_refuses (c : Levels) (ok : Bool) (pkg : Option Nat) (ex : Bool) :
     addTracer c true ok pkg ex = false ∧ addTracer c false ok pkg true = false ∧
-      (c.active = true → addTracer c false false pkg ex = false) := by
+      (c.active = true → addTracer c false false pkg ex = false) ∧
+      (c.active = true → addTracer c false ok none ex = false) := by
   unfold addTracer PB.Gen.Log.addTracer PB.Gen.Log.fastcheck
-  refine ⟨by simp, ?_, ?_⟩
+  refine ⟨by simp, ?_, ?_, ?_⟩
   · cases c.active <;> cases ok <;> cases pkg.isNone <;> cases (pkg.bind (lookupPkg c.pkgs)) <;> simp
   · intro h; simp [h]
-
+  · intro h; cases ok <;> simp [h]
 
 /-- Trace was in force for the origin `AddTracer` was called from when it handed the tracer out, and a tracer
     collects only lines of the six severities. -/
